@@ -260,11 +260,48 @@ PROPS["C16"] = dict(
     exhaustive_note="single-fault points: every put and upload_shard ordinal of a session when the session has <= max-points store calls",
 )
 
+PROPS["C12"] = dict(
+    level="exploration",
+    technique="truth monitor on every cache hit: sequential histories with re-opens, 17 kinds of on-disk damage applied while closed, and concurrent schedules steered through hook points",
+    rule=("(1) sequential histories of put/get/re-open/delete-while-open over 1..6 keys x 1..40 chunks with overlapping, nested, adjacent and identical ranges and capacities from one item to all; "
+          "(2) damage cases: one damage kind per case (single bursts <= 32 bits in header / data, truncation, extension, deletion, renames, swaps, moves, junk and planted names at every level), then re-open and query "
+          "everything; (3) 2..8 threads under random-walk / PCT steering (one thread runs between hook points; the grant sequence is the witness) or perturbation; every Ok(Some) is judged against the truth slice; "
+          "distinct = (phase, shape) resp. (damage kind) resp. (mode, scenario, threads, grant-sequence hash)"),
+    assumptions=["corruption stays within a single burst of <= 32 bits per file (what CRC-32 guarantees to detect)", "re-open is performed in the same process on a fresh DiskCache (the type has no process-global state)",
+                 "the code's own rand::random eviction choice is not controlled"],
+    jobs=[
+        Job("cache_seq", engine="cache_seq", workers=(4, 4), cases=(250, 25000), time_s=(40, 700), **FULL),
+        Job("cache_fault", engine="cache_fault", workers=(4, 4), cases=(340, 34000), time_s=(40, 700), **FULL),
+        Job("cache_conc", engine="cache_conc", workers=(8, 8), cases=(150, 15000), time_s=(40, 700), **FULL),
+    ],
+    gates=dict(evaluations=(2500, 200000), distinct=(800, 20000),
+               counters={"seq_hits_judged": (50000, 2000000), "seq_reopens": (1000, 50000), "fault_cases": (1000, 100000), "fault_hits_judged": (30000, 2000000), "concurrent_hits_judged": (500, 50000),
+                         "hook_points_crossed": (10000, 1000000), "damage_short-key-dir": (50, 5000), "damage_burst-data": (50, 5000), "damage_swap-two-items": (50, 5000)}),
+)
+
+PROPS["C13"] = dict(
+    level="exploration",
+    technique="invariant hook at quiescent points: verif_snapshot (under the cache's own lock) vs public counters vs directory walk, under steered / perturbed concurrent schedules and sequential histories",
+    rule=("at every step of sequential histories and after all threads of a concurrent schedule are joined: num_items == tracked entries, total_bytes == sum of tracked lengths, every cache file on disk belongs to a tracked entry, "
+          "after reading every tracked entry back totals == on-disk totals, total_bytes <= capacity after any put returned (checked in every thread), and again after re-opening with the same capacity; "
+          "schedules are weighted to simultaneous identical puts and overlapping puts racing evictions with tiny capacities; distinct = (mode, scenario, threads, grant-sequence hash)"),
+    assumptions=["no single item is larger than the capacity", "interleavings inside std / file-system calls are not steered (points sit between them)", "random eviction victim not controlled"],
+    jobs=[
+        Job("cache_conc", engine="cache_conc", workers=(10, 12), cases=(200, 20000), time_s=(40, 700), **FULL),
+        Job("cache_seq", engine="cache_seq", workers=(4, 4), cases=(250, 25000), time_s=(40, 700), **FULL),
+    ],
+    gates=dict(evaluations=(2500, 200000), distinct=(1500, 50000),
+               counters={"scenario_identical-puts": (500, 50000), "scenario_overlap-evict": (200, 20000), "steered_grants": (15000, 1000000), "hook_points_crossed": (20000, 1000000),
+                         "seq_histories_with_eviction": (200, 20000)}),
+)
+
 LEVEL_TEXT = {
     "C01": "Held on the explored histories: after every successful session each file was downloaded by a fresh downloader, whole and in ranges, and compared byte for byte with what was fed. Sampling over contents, partitions, limits and schedules; hostile generators (limits +-1, interleaved dedup, cross-session and cross-file references, global dedup).",
     "C02": "Held on the explored sessions: every stored xorb decoded under an independent parser with name == recomputed hash; every file record resolved to existing xorbs, in-range chunks and exact byte sums; file hash, per-segment verification hashes and SHA-256 equalled independent recomputation from the original bytes.",
     "C03": "Held on the explored files: pointer hash and size equalled an absolute reference (independent chunker + merkle + salt), hence are a function of bytes and salt only, across 8 feed partitions, prior store states, dedup outcomes and concurrent cleaning.",
     "C11": "Held on the explored histories: each xorb a session stored was described in that session's shards, and no later session sharing the shard cache uploaded a chunk an earlier finalized session had stored (fragmentation prevention accounted for).",
+    "C12": "Held on the explored histories, damage cases and schedules: every reported hit equalled the truth slice (data, offsets, range); damaged / planted / junk entries became misses or errors, never wrong data or a panic, with two recorded exceptions (files renamed to another well-formed name or moved to another key, see known findings).",
+    "C13": "Held at every observed quiescent point: counters, tracked entries and directory contents agreed, and the capacity bound held after every put, including hundreds of steered schedules of simultaneous identical puts.",
     "C14": "Held on the explored files and sessions: sizes and metrics conserved (new + deduped = total, withheld <= new, session = sum of files, upload byte counts = what the store calls carried), including runs where fragmentation prevention engaged.",
     "C15": "Held on the explored sessions: every xorb handed to the store respected the configured chunk/byte limits and wire-format widths with strictly increasing boundaries; no shard carried an unresolved xorb reference.",
     "C16": "Fault enumeration: every store call of each enumerated session was failed in turn; in every injected run some session call returned an error, and no shard was ever handed over before/without its xorbs. Exhaustive over single faults per session (bounded), sampled over multi-fault sets and schedules.",
